@@ -203,7 +203,9 @@ impl ScriptInfo {
     }
 }
 
-struct InFlight { due: usize, seq: usize, em: usize, bytes: Vec<u8> }
+struct InFlight { due: usize, seq: usize, em: usize, bytes: Vec<u8>,
+    /// held back by the network: it arrives behind the frames that reach the same round on time (both are then read by the same step, in swapped order)
+    late: bool }
 
 pub fn dispatch(hc: &mut HalfConnection, bytes: &[u8]) -> bool {
     match Frame::read(bytes) {
@@ -290,7 +292,7 @@ pub fn run_lw(cfg: &LwCfg, si: &ScriptInfo, env: &LwEnv, ch: &mut Chooser, mut i
                         let em = tr.ems.len();
                         tr.ems.push(Em { side, round, t_ms: now, len: f.len(), frame: parsed, fate, step_no: step_no[side] });
                         let l = latency;
-                        let mut push = |due: usize, bytes: Vec<u8>, seq: &mut usize| { nets[other].push(InFlight { due, seq: *seq, em, bytes }); *seq += 1; };
+                        let mut push = |due: usize, bytes: Vec<u8>, seq: &mut usize| { nets[other].push(InFlight { due, seq: *seq, em, bytes, late: due > round + l }); *seq += 1; };
                         match fate {
                             Fate::Deliver => push(round + l, f, &mut seq),
                             Fate::Drop => {}
@@ -307,7 +309,7 @@ pub fn run_lw(cfg: &LwCfg, si: &ScriptInfo, env: &LwEnv, ch: &mut Chooser, mut i
                         let mut due: Vec<InFlight> = Vec::new(); let mut rest: Vec<InFlight> = Vec::new();
                         for f in nets[side].drain(..) { if f.due <= round { due.push(f) } else { rest.push(f) } }
                         nets[side] = rest;
-                        due.sort_by_key(|f| (f.due, f.seq));
+                        due.sort_by_key(|f| (f.due, f.late, f.seq));
                         for f in due {
                             set_fuel(env.fuel);
                             let ok = dispatch(&mut hcs[side], &f.bytes);
